@@ -16,7 +16,7 @@ from symx.fs import SymFS
 OPTS = list(itertools.product([True, False], repeat=4))   # headers, shape, data, coords
 
 
-def taste_once(mods, ref, opts, limit, nofail, ctx, mutate=None, schedule=None):
+def taste_once(mods, ref, opts, limit, nofail, ctx, mutate=None, schedule=None, prior=None):
     """Returns (outcome, detail): outcome in 'good', 'bad', 'raised'."""
     Taster = mods['amr_kitchen.taste.taste'].Taster
     fs = SymFS()
@@ -24,6 +24,13 @@ def taste_once(mods, ref, opts, limit, nofail, ctx, mutate=None, schedule=None):
     if mutate is not None:
         mutate(fs)
     with patch.Patched(mods, fs, schedule=schedule), common.quiet() as buf:
+        if prior is not None:
+            # a history in one process: another validation (other options) runs first
+            try:
+                bool(Taster('plt', limit_level=prior[1], binary_headers=prior[0][0], binary_shape=prior[0][1], binary_data=prior[0][2],
+                            boxes_coordinates=prior[0][3], nofail=True))
+            except Exception:
+                pass
         try:
             t = Taster('plt', limit_level=limit, binary_headers=opts[0], binary_shape=opts[1], binary_data=opts[2],
                        boxes_coordinates=opts[3], nofail=nofail)
@@ -37,7 +44,7 @@ def run_case(case):
     res = CaseResult()
     mods = common.mods()
     ref = families.make_ref('p', case['mesh'], case['fields'], layout=case['layout'], geom=case['geom'],
-                            ref_line_extra=case.get('ref_extra', 0))
+                            ref_line_extra=case.get('ref_extra', 0), level_prefix=case.get('level_prefix', 'Level_'))
     viol = {}
     nruns = 0
     limits = [None] + list(range(ref.nlev))
@@ -67,11 +74,33 @@ def run_case(case):
                         if sig not in viol:
                             viol[sig] = {'signature': sig, 'what': obl.failed[0][0], 'opts': list(opts), 'limit': limit, 'nofail': nofail}
 
+    # histories: a validation with other options ran before in the same process (the judged one must still say good)
+    HIST = [(((True, True, True, True), None), (True, True, False, False), None, False), (((True, True, True, False), 0), (True, True, True, True), None, True),
+            (((False, False, False, True), None), (True, False, True, False), ref.nlev - 1, True)]
+    for prior, opts, limit, nofail in HIST:
+        def hpath(ctx, prior=prior, opts=opts, limit=limit, nofail=nofail):
+            obl = Obl(ctx)
+            outcome, detail, _ = taste_once(mods, ref, opts, limit, nofail, ctx, prior=prior)
+            obl.total += 1
+            if outcome == 'good':
+                obl.trivial += 1
+            else:
+                obl.failed.append(('Taster(%s, limit=%s, nofail=True) then Taster(headers=%s, shape=%s, data=%s, coords=%s, limit=%s, nofail=%s) on a well-formed plotfile: %s (%s)'
+                                   % ((''.join('HSDC'[i] if prior[0][i] else '-' for i in range(4)), prior[1]) + opts + (limit, nofail, outcome, detail.strip().splitlines()[-1] if detail.strip() else '')), None))
+            return obl
+        results, exhaustive, stats = core.explore(hpath, max_paths=64)
+        res.add_explore(results, exhaustive, stats)
+        nruns += 1
+        for ctx, obl in results:
+            res.add_obl(obl)
+            if obl.failed and 'C03/history' not in viol:
+                viol['C03/history'] = {'signature': 'C03/history', 'what': obl.failed[0][0], 'opts': list(opts), 'limit': limit, 'nofail': nofail, 'prior': [list(prior[0]), prior[1]]}
+
     # canary: a plotfile with one binary file removed must not be accepted
     def canary(ctx):
         def rm(fs):
             lv = ref.nlev - 1
-            fs.remove('/work/plt/Level_%d/%s' % (lv, ref.files(lv)[0][0]))
+            fs.remove('/work/plt/%s%d/%s' % (ref.level_prefix, lv, ref.files(lv)[0][0]))
             fs.audit.clear()
         return taste_once(mods, ref, (True, True, False, False), None, True, ctx, mutate=rm)[0]
     cres, _, _ = core.explore(canary, max_paths=2)
@@ -88,8 +117,13 @@ def run_case(case):
         fs = SymFS()
         ref.write_symfs(fs, '/work/plt')
         o = v['opts']
+        pre = ''
+        if v.get('prior'):
+            po, pl = v['prior']
+            pre = ("    try:\n        bool(Taster(os.path.join(IN, 'plt'), limit_level=%r, binary_headers=%r, binary_shape=%r, binary_data=%r, boxes_coordinates=%r, nofail=True))\n"
+                   "    except Exception:\n        pass\n" % (pl, po[0], po[1], po[2], po[3]))
         run = ("from amr_kitchen.taste.taste import Taster\nimport contextlib, io\n"
-               "with contextlib.redirect_stdout(io.StringIO()):\n"
+               "with contextlib.redirect_stdout(io.StringIO()):\n" + pre +
                "    t = Taster(os.path.join(IN, 'plt'), limit_level=%r, binary_headers=%r, binary_shape=%r, binary_data=%r, boxes_coordinates=%r, nofail=%r)\n"
                "RESULT = 1.0 if bool(t) else 0.0\n" % (v['limit'], o[0], o[1], o[2], o[3], v['nofail']))
         d = replay_lib.make_tool_replay('C03', sig, v['what'], {'plt': (fs, '/work/plt')}, run,
@@ -119,6 +153,10 @@ def cases():
         if m.nboxes() == [3]:
             for lay in families.all_layouts(3, 2 if tier == 'quick' else 3):
                 out.append({'label': '%s/layout%s' % (m.name, lay), 'mesh': m, 'fields': fsets[1], 'layout': [lay], 'geom': 1})
+    # level directories under another name than Level_n
+    for j, mm in enumerate([x for x in families.curated_meshes() if x.name in ('3d-2lev-mixed', '2d-2lev')]):
+        out.append({'label': '%s/lev-prefix' % mm.name, 'mesh': mm, 'fields': ['density', 'temp'] if 'c05' in __name__ else families.FIELD_SETS[1 + j], 'layout': families.scatter_layouts(mm, rnd, 2), 'geom': j,
+                    'ref_extra': j, 'level_prefix': ['Lev_', 'amr_'][j]})
     for r in range(6 if tier == 'quick' else 120):
         nd = rnd.choice([2, 3])
         m = families.random_mesh(rnd, nd, max_levels=2 if tier == 'quick' else 3, max_boxes=4, max_extent=4)
